@@ -551,7 +551,7 @@ func TestC13(t *testing.T) {
 	runKnownExamples(t, "C13")
 	maxLen, pairs, pairLen := 3, false, 0
 	if tier() == "thorough" {
-		maxLen, pairs, pairLen = 5, true, 4
+		maxLen, pairs, pairLen = 6, true, 5
 	}
 	idx, n := shardInfo()
 	enum := func(alphabet []C13Op, translated bool, maxLen int, pairs bool, pairLen int) func(yield func(C13Case) bool) {
